@@ -1403,7 +1403,7 @@ static int wcoll_arg_process (char *arg, opt_t *opt)
             if (rcmd_type || user) {
                 if (rcmd_register_defaults (hosts, rcmd_type, user) < 0)
                     errx ("%p: Failed to register rcmd \"%s\" for \"%s\"\n",
-                            rcmd_type, hosts);
+                            rcmd_type ? rcmd_type : "(default)", hosts);
             }
         }
     }
